@@ -461,6 +461,15 @@ Fixpoint for_loop (step : val -> heap -> env -> sres) (src : option nat) (all el
                 | r => r end
     end
   else SUnm.
+(* the element loop of a list comprehension (same iteration rule as for_loop) *)
+Fixpoint comp_loop (step : heap -> val -> out (heap * val)) (src : option nat) (all els : list val) (h : heap) : out (heap * list val) :=
+  match els with
+  | [] => OK (h, [])
+  | el :: t =>
+      if unchanged h src all then
+        b <~ step h el ;; rs <~ comp_loop step src all t (fst b) ;; OK (fst rs, snd b :: snd rs)
+      else UNM
+  end.
 Definition run_block (f : stmt -> heap -> env -> sres) : list stmt -> heap -> env -> sres :=
   fix go (l : list stmt) (h : heap) (en : env) : sres :=
     match l with [] => SNorm h en | s :: r => match f s h en with SNorm h' en' => go r h' en' | o => o end end.
@@ -522,14 +531,7 @@ Fixpoint eval (h : heap) (en : env) (e : exp) {struct e} : out (heap * val) :=
       | _ => UNM end
   | EComp body x it =>
       v <~ eval h en it ;; els <~ iter_elems (fst v) (snd v) ;;
-      r <~ (fix go (l : list val) (h : heap) {struct l} : out (heap * list val) :=
-              match l with
-              | [] => OK (h, [])
-              | el :: t =>
-                  if unchanged h (fst els) (snd els) then
-                    b <~ eval h (mkEnv ((x, el) :: e_loc en) (e_out en)) body ;; rs <~ go t (fst b) ;; OK (fst rs, snd b :: snd rs)
-                  else UNM
-              end) (snd els) (fst v) ;;
+      r <~ comp_loop (fun h el => eval h (mkEnv ((x, el) :: e_loc en) (e_out en)) body) (fst els) (snd els) (snd els) (fst v) ;;
       let (h', a) := halloc (fst r) (OList (snd r)) in OK (h', VRef a)
   end.
 
